@@ -361,3 +361,5 @@ def finish(prop, tier, ctxs, t0, explanation, assumptions, rule_text, extra=None
     print('%s: %d rule instances over %d config(s); %d holding, %d known finding(s), %d violation(s); %.1fs'
           % (prop, len(checked), len(ctxs), len([1 for c, r, i in checked if i.ok]), len(known_hits), len(violations), time.time() - t0))
     return 1 if violations else 0
+
+import dispatch  # noqa: E402,F401  (the engine's module of that name must be the one in sys.modules before spec/ is put on the path)
